@@ -573,14 +573,34 @@ class FactsProblem(Problem):
                 z.kill(kp)
                 if simple and kp == tt and isinstance(value, ast.Call) and isinstance(value.func, ast.Name) \
                         and value.func.id in ("min", "max") and not value.keywords and len(value.args) >= 2:
-                    for a in value.args:
-                        la = lin(a)
+                    lins = [lin(a) for a in value.args]
+                    for la in lins:
                         if la is None or mentions(T(la[0]), tt):
                             continue
                         if value.func.id == "min":
                             new_ub.append((tt, T(la[0]), la[1]))
                         else:
                             new_ub.append((T(la[0]), tt, -la[1]))
+                    # max(a, b) <= t + k  when every argument is (min: >= when every argument is)
+                    if all(la is not None for la in lins):
+                        z.close()
+                        for term in list(z.terms()) + [ZERO]:
+                            if mentions(term, tt):
+                                continue
+                            ks = []
+                            for la in lins:
+                                ta = T(la[0])          # type: ignore[index]
+                                if value.func.id == "max":
+                                    k = 0 if ta == term else z.d.get((ta, term))
+                                    ks.append(None if k is None else k + la[1])          # type: ignore[index]
+                                else:
+                                    k = 0 if ta == term else z.d.get((term, ta))
+                                    ks.append(None if k is None else k - la[1])          # type: ignore[index]
+                            if all(k is not None for k in ks):
+                                if value.func.id == "max":
+                                    new_ub.append((tt, term, max(ks)))          # type: ignore[type-var]
+                                else:
+                                    new_ub.append((term, tt, max(ks)))          # type: ignore[type-var]
             # x = S.find(sub, lo, hi) / S.index(...): the result is below hi (or below len(S))
             if simple and isinstance(value, ast.Call) and isinstance(value.func, ast.Attribute) and value.func.attr in ("find", "index", "rfind", "rindex") \
                     and not value.keywords and 1 <= len(value.args) <= 3 and stable(value.func.value):
